@@ -74,11 +74,37 @@ PROPS['C20'] = {
     'design_ref': 'DESIGN.md section 5 C20',
 }
 
+PROPS['C06'] = {
+    'units': ['merge'],
+    'title': 'output independent of arrival order (sequential kernel)',
+    'technique': 'Verus contracts on ParsedData::add_assign (concatenation), the sort block of reconcile_aliases (sorted + same multiset, all four '
+                 'item kinds) and a uniqueness lemma (vstd lemma_sorted_unique): merged vectors are a function of the multiset of per-file results',
+    'level_text': 'For any per-file results and any arrival order at the collector: folding with += concatenates (so the multiset of items per kind '
+                  'is order independent), the sort block leaves every kind (structs, enums, aliases, consts) sorted with the same items, and a sorted '
+                  'permutation under a total order is unique - hence the item sequences handed to generation do not depend on arrival order, '
+                  'provided no two items of a kind share a name (known finding kf-duplicate-names).',
+    'level_note': 'Sequential kernel only: threads, the parallel walker, channel behaviour and hash-seed dependent picks in other code are not decided. '
+                  'Assumed: <[T]>::sort contract w.r.t. an uninterpreted Ord relation; the hand-written Ord impls are external; HashSet::extend outlined.',
+    'design_ref': 'DESIGN.md section 5 C06',
+}
+PROPS['C03'] = {
+    'units': ['merge', 'topo'],
+    'title': 'exactly the parsed items reach generation (conservation kernel)',
+    'technique': 'Verus contracts on ParsedData::push / is_empty / add_assign, TypeShareVisitor::collect_result, the sort block, toposort_impl and '
+                 'sort_by_indices: each stage preserves exactly the items (and keeps errors)',
+    'level_text': 'Between the parser\'s per-item result and the writer loop nothing is dropped, duplicated or invented: collect_result pushes an Ok '
+                  'item to exactly the vector of its kind and records an Err as one more error; is_empty keeps a file whose only content is an error; '
+                  '+= concatenates items and errors; sorting and topological reordering are permutations.',
+    'level_note': 'Kernel: that the syn visitor reaches every annotated item and only those, that is_skipped selects exactly the non-skipped members, and '
+                  'that every back end emits one definition per item are not under contract (syn walks / text emission).',
+    'design_ref': 'DESIGN.md section 5 C03',
+}
+
 NOT_APPLICABLE = {k: NA_TEXT for k in ['C01', 'C02', 'C04', 'C05', 'C08', 'C09', 'C10', 'C12', 'C14', 'C15', 'C19']}
 NOT_APPLICABLE.update({k: 'unit not built yet in this round (see DESIGN.md build order)' for k in
-                       ['C03', 'C06', 'C07', 'C13', 'C17']})
+                       ['C07', 'C13', 'C17']})
 
-ALL_UNITS = ['topo', 'rename', 'cfg', 'cfg_all']
+ALL_UNITS = ['topo', 'rename', 'cfg', 'cfg_all', 'merge']
 ALL_KANI = ['kint']
 
 
